@@ -36,6 +36,13 @@ Definition reach_bwd (deps : list (list nat)) (init : list nat) : bset :=
 Definition inter (a b : bset) : bset := map (fun p => fst p && snd p) (combine a b).
 Definition union (a b : bset) : bset := map (fun p => fst p || snd p) (combine a b).
 
+(* systems re-run in every driver iteration (Relevance._setup_nonlinear_relevance: the strongly connected
+   component of the component graph after tying all design-variable and response components together): the
+   components that are downstream of some design-variable / response component AND upstream of one.  Every
+   connection counts, continuous or discrete. *)
+Definition iter_set (deps : list (list nat)) (seeds : list nat) : bset :=
+  inter (reach_fwd deps seeds) (reach_bwd deps seeds).
+
 (* ---------------------------------------------------------------- closure certificate *)
 
 (* D contains the seeds and is closed downstream; A contains the targets and is closed upstream *)
